@@ -22,6 +22,9 @@ func vPathString(n int, alphabet string) string {
 }
 
 func vUnder(p, d string) bool {
+	if strings.HasSuffix(d, "/") {
+		return strings.HasPrefix(p, d)
+	}
 	return p == d || strings.HasPrefix(p, d+"/")
 }
 
@@ -45,6 +48,9 @@ func VH_C18() {
 		if vBool() {
 			d := "/" + vPathString(h, "ab")
 			vAssume(len(d) > 1 && d != homeDir && d != currDir)
+			if vBool() {
+				d += "/" // a mapping may be registered with a trailing slash
+			}
 			AddKnownPathMapping(d, "~w")
 			prot = append(prot, mp{d, "~w"})
 			if vBool() {
